@@ -424,6 +424,15 @@ pub fn facts_to_fops(rng: &mut Rng, f: &Facts, flags: &Flags, fv: u8, slot: u32,
     let mut terms = f.terms.clone();
     if shuffle {
         rng.shuffle(&mut terms);
+        // the shortest possible record (an empty name) at the very end / the very start of the section
+        if let Some(i) = terms.iter().position(|t| t.1.is_empty()) {
+            let n = terms.len();
+            match rng.below(4) {
+                0 | 1 => terms.swap(i, n - 1),
+                2 => terms.swap(i, 0),
+                _ => {}
+            }
+        }
     }
     for (id, nm) in &terms {
         let fl = flags.iter().find(|x| x.0 == *id);
@@ -457,14 +466,60 @@ pub fn facts_to_fops(rng: &mut Rng, f: &Facts, flags: &Flags, fv: u8, slot: u32,
     case.op(format!("fload {} {}", fv, slot));
 }
 
+/// ids along a chain (root first): unrelated to the depth, growing with the depth, or growing
+/// towards the root (walks over id-ordered ancestor sets then nest as deep as the chain is long)
+fn chain_id_order(rng: &mut Rng, ids: &mut [u32]) {
+    match rng.below(3) {
+        0 => ids.sort_unstable(),
+        1 => {
+            ids.sort_unstable();
+            ids.reverse();
+        }
+        _ => {}
+    }
+}
+
 /// A deep is_a chain (depth well beyond 32), optionally with shortcut edges and a few annotations,
 /// ids assigned by random injection. Terms are listed root first in `f.terms`.
 pub fn gen_deep_chain(rng: &mut Rng, n: usize) -> Facts {
-    let ids = gen_ids(rng, n, &[]);
+    let mut ids = gen_ids(rng, n, &[]);
+    chain_id_order(rng, &mut ids);
     let mut f = Facts::default();
     for id in &ids {
         f.terms.push((*id, gen_name(rng)));
     }
+    for i in 1..n {
+        f.edges.push((ids[i - 1], ids[i]));
+        if i >= 3 && rng.chance(1, 10) {
+            f.edges.push((ids[rng.below((i - 2) as u64) as usize], ids[i]));
+        }
+    }
+    for k in 0..3 {
+        let nrec = rng.range(0, 2) as u32;
+        for r in 1..=nrec {
+            f.recs[k].push((r, gen_name(rng)));
+            for _ in 0..rng.range(1, 3) {
+                f.links[k].push((r, *rng.pick(&ids)));
+            }
+        }
+    }
+    f.version = (2024, 1, 1);
+    f
+}
+
+/// A deep chain below HP:1 <- HP:118 (both present, as the binary loader needs them); the chain's
+/// ids avoid 1 and 118. Terms are listed root first in `f.terms`.
+pub fn gen_deep_chain_rooted(rng: &mut Rng, n: usize) -> Facts {
+    let mut ids = gen_ids(rng, n, &[1, 118]);
+    chain_id_order(rng, &mut ids);
+    let mut f = Facts::default();
+    f.terms.push((1, "All".to_string()));
+    f.terms.push((118, "Phenotypic abnormality".to_string()));
+    f.edges.push((1, 118));
+    for id in &ids {
+        f.terms.push((*id, gen_name(rng)));
+    }
+    f.edges.push((118, ids[0]));
     for i in 1..n {
         f.edges.push((ids[i - 1], ids[i]));
         if i >= 3 && rng.chance(1, 10) {
